@@ -995,3 +995,216 @@ def limit_family(rng, nested: bool = False) -> list:
             q = ('query', r, tuple(('elem', r, dslgen.name_of(f)) for f in sel), None, (), None, (), None)
         out.append(q)
     return out
+
+
+# ---- reader level: feeds, storages, mappings, file formats ------------------------------------------------------------
+#: the feeds of a reader-level history: (kind, storage index, mapping).  Feeds 4 / 5 use the SAME connection as feeds 0 / 1
+#: but map the schemas to other physical tables of that database ("b" tables)
+FEEDS = (('alchemy', 0, 'a'), ('alchemy', 1, 'a'), ('lazy', 2, 'a'), ('lazy', 3, 'a'), ('alchemy', 0, 'b'), ('alchemy', 1, 'b'))
+FEED_KINDS = tuple(f[0] for f in FEEDS)
+STORAGE = tuple(f[1] for f in FEEDS)
+MAPPING = tuple(f[2] for f in FEEDS)
+STORAGE_KINDS = ('alchemy', 'alchemy', 'lazy', 'lazy')
+#: physical table names of the second mapping
+ALT = {'people': 'people_b', 'dept': 'dept_b', 'unit_tbl': 'unit_b'}
+#: physical name (either mapping) -> catalog table
+TABLE_OF = {**{PHYS[t[1]]: t for t in CATALOG}, **{ALT[PHYS[t[1]]]: t for t in CATALOG}}
+#: how a table of a file backed (monolite) storage is kept: format -> (origin group, user kwargs, header line written)
+FORMATS = {
+    'csv': ('csv', None, True),                                   # plain path, class defaults
+    'csv-semicolon': ('csv', {'sep': ';'}, True),                 # a non-colliding reader option
+    'csv-noheader': ('csv', {'header': None}, False),             # a user option that overrides a class default
+    'csv-noheader-semicolon': ('csv', {'header': None, 'sep': ';'}, False),
+    'csv-header0': ('csv', {'header': 0}, True),                  # the default spelled out
+    'parquet': ('parquet', None, None),
+    'inline': ('inline', None, None),
+}
+
+
+def sources_of(feed: int):
+    """`Feed.sources` of a reader-level feed for the model: ((table-ast physical-name) ...)"""
+    if FEED_KINDS[feed] == 'lazy':
+        return tuple((t, t[1]) for t in CATALOG)
+    if MAPPING[feed] == 'b':
+        return tuple((t, ALT[PHYS[t[1]]]) for t in CATALOG)
+    return sources_sexp()
+
+
+def view(feed: int, db: dict) -> dict:
+    """the content of the feed's storage as the feed's mapping shows it: {catalog physical name: (cols, rows)}"""
+    if MAPPING[feed] == 'b':
+        return {name: db[ALT[name]] for name in PHYS.values()}
+    return {name: db[name] for name in PHYS.values()}
+
+
+def gen_db6(rng, empty_bias: float = 0.05) -> dict:
+    """content of a SQL storage: the tables of both mappings (different content)"""
+    db = gen_db(rng, empty_bias)
+    other = gen_db(rng, empty_bias)
+    db.update({ALT[name]: table for name, table in other.items()})
+    return db
+
+
+# ---- the Python operator surface ------------------------------------------------------------------------------------------
+#: binary operators of the Python syntax: AST op -> (python operator name, symbol)
+PY_BINARY = {'add': ('add', '+'), 'sub': ('sub', '-'), 'mul': ('mul', '*'), 'div': ('truediv', '/'), 'mod': ('mod', '%'),
+             'lt': ('lt', '<'), 'le': ('le', '<='), 'gt': ('gt', '>'), 'ge': ('ge', '>='), 'eq': ('eq', '=='), 'ne': ('ne', '!='),
+             'and': ('and', '&'), 'or': ('or', '|')}
+_MIRROR = {'lt': 'gt', 'gt': 'lt', 'le': 'ge', 'ge': 'le', 'eq': 'eq', 'ne': 'ne'}
+
+
+class SugarBuilder(dslgen.Builder):
+    """Builds expressions the way a statement author writes them: THROUGH the Python operators of `dsl.Operable`, with
+    plain Python values (not `dsl.Literal`) wherever the AST has a literal operand - `100 / T.size`, `5 < T.age`,
+    `(T.a > 1) & ~T.flag`.  Everything else as `dslgen.Builder`."""
+
+    def __init__(self):
+        super().__init__(proxy=True)
+
+    def operand(self, ast):
+        """plain Python value for a literal, feature otherwise"""
+        if ast[0] == 'lit':
+            return self.value(ast[1])
+        return self.feature(ast)
+
+    def feature(self, ast, toplevel: bool = False):
+        import operator as o
+
+        from forml.io import dsl
+
+        if ast[0] == 'expr' and (ast[1] in PY_BINARY or ast[1] == 'not'):
+            if ast[1] == 'not':
+                arg = self.operand(ast[2])
+                return ~(arg if isinstance(arg, dsl.Feature) else dsl.Literal(arg))
+            left, right = self.operand(ast[2]), self.operand(ast[3])
+            if not isinstance(left, dsl.Feature) and not isinstance(right, dsl.Feature):
+                left = dsl.Literal(left)  # two plain values would be computed by Python itself
+            return {'and': o.and_, 'or': o.or_}.get(ast[1], getattr(o, PY_BINARY[ast[1]][0], None))(left, right)
+        return super().feature(ast, toplevel)
+
+
+def py_text(f) -> str:
+    """the Python source of a feature AST as `SugarBuilder` writes it (for reports)"""
+    tag = f[0]
+    if tag == 'lit':
+        return repr(f[1][1])
+    if tag == 'elem':
+        origin = f[1][1] if f[1][0] == 'table' else f[1][2]
+        return f'{origin}.{f[2]}'
+    if tag == 'alias':
+        return f'({py_text(f[1])}).alias({f[2]!r})'
+    if tag == 'expr':
+        if f[1] == 'not':
+            return f'~({py_text(f[2])})'
+        if f[1] in PY_BINARY:
+            return f'({py_text(f[2])} {PY_BINARY[f[1]][1]} {py_text(f[3])})'
+        return f'{dslgen.OP_CLASS[f[1]]}({", ".join(py_text(a) for a in f[2:])})'
+    return repr(f)
+
+
+def to_pyexpr(f):
+    """the Python expression behind a feature AST, in the wire format of the driver's `(sugar ...)`"""
+    if f[0] == 'lit':
+        return ('val', f[1])
+    if f[0] == 'expr' and f[1] == 'not':
+        inner = to_pyexpr(f[2])
+        return ('inv', ('feat', f[2]) if inner[0] == 'val' else inner)
+    if f[0] == 'expr' and f[1] in PY_BINARY:
+        a, b = to_pyexpr(f[2]), to_pyexpr(f[3])
+        if a[0] == 'val' and b[0] == 'val':
+            a = ('feat', f[2])
+        return ('bin', PY_BINARY[f[1]][0], a, b)
+    return ('feat', f)
+
+
+def read_back(obj):
+    """`dslgen.to_ast` with the comparison proxies (`Comparison.Pythonic`) resolved to the comparison they stand for"""
+    def fix(x):
+        if isinstance(x, tuple):
+            if x and x[0] == 'pythonic':
+                return ('expr',) + tuple(fix(a) for a in x[1:])
+            return tuple(fix(a) for a in x)
+        return x
+
+    return fix(dslgen.to_ast(obj))
+
+
+def unmirror(f):
+    """normal form under the interpreter's own mirroring of comparisons (`5 < x` is dispatched as `x > 5`, an element
+    of a reference against a column tries the column's reflected method first): the operands of every comparison in a
+    fixed order, the operator mirrored along; nothing else moves"""
+    if not isinstance(f, tuple):
+        return f
+    f = tuple(unmirror(a) for a in f)
+    if f and f[0] == 'expr' and f[1] in _MIRROR and len(f) == 4 and repr(f[2]) > repr(f[3]):
+        return ('expr', _MIRROR[f[1]], f[3], f[2])
+    return f
+
+
+def sugar_expr(rng, feats, kind: str, depth: int, ops=ARITH):
+    """an expression in which literals stand on either side of the operators (literal-left favoured)"""
+    r = rng
+    col = lambda k: r.choice([e for e, kk in feats if kk == k] or [None])  # noqa: E731
+    lit = lambda k: ('lit', ('int', r.choice((1, 2, 3, 5, 7, 10, 100))) if k == 'integer' else ('str', r.choice(STR_LITS)))  # noqa: E731
+    if kind == 'integer':
+        c = col('integer')
+        if depth <= 0 or c is None:
+            return c if c is not None and r.random() < 0.6 else lit('integer')
+        a, b = sugar_expr(r, feats, 'integer', depth - 1, ops), sugar_expr(r, feats, 'integer', depth - 1, ops)
+        if a[0] == 'lit' and b[0] == 'lit':
+            b = c
+        if r.random() < 0.5 and a[0] != 'lit':
+            a = lit('integer')  # literal on the LEFT: the reflected method
+            if b[0] == 'lit':
+                b = c
+        return ('expr', r.choice(ops), a, b)
+    # boolean
+    choice = r.random()
+    if depth <= 0 or choice < 0.5:
+        k = r.choice(('integer', 'integer', 'string'))
+        c = col(k) or col('integer')
+        k = 'integer' if c is None or kind6(c) == 'integer' else 'string'
+        other = lit(k) if r.random() < 0.7 or depth <= 0 else sugar_expr(r, feats, 'integer', depth - 1, ops) if k == 'integer' else lit(k)
+        a, b = (other, c) if r.random() < 0.55 else (c, other)
+        if a is None or b is None:
+            a, b = lit('integer'), ('expr', 'add', lit('integer'), lit('integer'))
+        return ('expr', r.choice(CMP), a, b)
+    if choice < 0.85:
+        return ('expr', r.choice(('and', 'or')), sugar_expr(r, feats, 'boolean', depth - 1, ops), sugar_expr(r, feats, 'boolean', depth - 1, ops))
+    return ('expr', 'not', sugar_expr(r, feats, 'boolean', depth - 1, ops))
+
+
+def sugar_statement(rng):
+    """a statement whose projection and filter are written with the Python operators (modelled classes only)"""
+    t = rng.choice(CATALOG)
+    src = t if rng.random() < 0.7 else ('ref', t, rng.choice(REF_NAMES))
+    feats = avail(src)
+    sel = [('elem', src, 'id')]
+    for name in rng.sample(ALIASES, rng.randint(1, 2)):
+        sel.append(('alias', sugar_expr(rng, feats, rng.choice(('integer', 'integer', 'boolean')), 2), name))
+    pre = sugar_expr(rng, feats, 'boolean', 2) if rng.random() < 0.7 else None
+    return ('query', src, tuple(sel), pre, (), None, (), None)
+
+
+def sugar_probes(rng, n: int) -> list:
+    """feature ASTs over every overloaded operator - incl. division and modulus, which are only checked structurally"""
+    feats = avail(PERSON) + avail(('ref', PERSON, 'p'))
+    out = []
+    x, y = ('elem', PERSON, 'age'), ('elem', ('ref', PERSON, 'p'), 'boss')
+    for op in ARITH + ('div', 'mod'):
+        for a, b in ((('lit', ('int', 100)), x), (x, ('lit', ('int', 7))), (x, y), (y, x),
+                     (('lit', ('int', 3)), ('expr', 'add', x, ('lit', ('int', 1))))):
+            out.append(('expr', op, a, b))
+    for op in CMP:
+        for a, b in ((('lit', ('int', 5)), x), (x, ('lit', ('int', 5))), (x, y), (y, x)):
+            out.append(('expr', op, a, b))
+    flag = ('elem', PERSON, 'active')
+    for op in ('and', 'or'):
+        out.append(('expr', op, ('lit', ('bool', True)), flag))
+        out.append(('expr', op, flag, ('lit', ('bool', False))))
+        out.append(('expr', op, ('expr', 'lt', x, ('lit', ('int', 5))), ('expr', 'eq', ('lit', ('int', 1)), y)))
+    out.append(('expr', 'not', flag))
+    out.append(('expr', 'not', ('expr', 'gt', ('lit', ('int', 2)), x)))
+    while len(out) < n:
+        out.append(sugar_expr(rng, feats, rng.choice(('integer', 'boolean')), 3, ARITH + ('div', 'mod')))
+    return out
